@@ -38,3 +38,13 @@ pub mod c08 {
     use super::*;
     include!("c08.rs");
 }
+pub mod c09 {
+    #[allow(unused_imports)]
+    use super::*;
+    include!("c09.rs");
+}
+pub mod c10 {
+    #[allow(unused_imports)]
+    use super::*;
+    include!("c10.rs");
+}
